@@ -26,8 +26,8 @@ tier: B
 bound: the input is delivered in at most 3 read()/fread() calls that return data (each up to one 4096-byte chunk, so up to 12288 bytes and two capacity doublings); size, position, seekability, short counts, errors and every byte are symbolic
 unwind: 5
 objbits: 6
-flags: --slice-formula
-timeout: 400
+flags: --slice-formula --arrays-uf-always
+timeout: 900
 */
 /*@unit
 name: mbuff.init_from_fp
@@ -39,8 +39,8 @@ tier: B
 bound: the input is delivered in at most 3 read()/fread() calls that return data (each up to one 4096-byte chunk, so up to 12288 bytes and two capacity doublings); size, position, seekability, short counts, errors and every byte are symbolic
 unwind: 5
 objbits: 6
-flags: --slice-formula
-timeout: 400
+flags: --slice-formula --arrays-uf-always
+timeout: 900
 */
 /*@unit
 name: mbuff.new_from_fd
@@ -80,7 +80,8 @@ flags: --slice-formula
     __CPROVER_ensures(MBUFF_STATE_PRE(o)) \
     __CPROVER_ensures((o)->parent.cls == SPIF_CLASS(__CPROVER_old(spif_mbuff_mbuffclass))) \
     /* every byte consumed is in the buffer, in order */ \
-    __CPROVER_ensures(VG_IN_OK && POS0 <= vg_in_pos && (o)->len == vg_in_pos - POS0) \
+    /* (after a stdio error the position is indeterminate: the count is then a lower bound) */ \
+    __CPROVER_ensures(VG_IN_OK && POS0 <= vg_in_pos && (o)->len <= vg_in_pos - POS0 && (vg_in_err || (o)->len == vg_in_pos - POS0)) \
     __CPROVER_ensures(!(vg_k < (size_t) (o)->len) || vg_in_at != (size_t) POS0 + vg_k || (o)->buff[vg_k] == vg_in_byte) \
     /* .complete: reading stopped at the end of the input unless an error was reported */ \
     __CPROVER_ensures(vg_in_pos == vg_in_size || vg_in_err || vg_in_rderr)
@@ -135,7 +136,7 @@ __CPROVER_requires(fp != NULL && VG_IN_OK && !vg_in_rderr && !vg_in_err && vg_in
 __CPROVER_assigns(vg_in_pos, vg_in_eof, vg_in_err, vg_in_rderr, vg_in_calls)
 __CPROVER_ensures(__CPROVER_is_fresh(RV, sizeof(*RV)))
 __CPROVER_ensures(MBUFF_POST(RV))
-__CPROVER_ensures(VG_IN_OK && POS0 <= vg_in_pos && RV->len == vg_in_pos - POS0)
+__CPROVER_ensures(VG_IN_OK && POS0 <= vg_in_pos && RV->len <= vg_in_pos - POS0 && (vg_in_err || RV->len == vg_in_pos - POS0))
 __CPROVER_ensures(!(vg_k < (size_t) RV->len) || vg_in_at != (size_t) POS0 + vg_k || RV->buff[vg_k] == vg_in_byte)
 __CPROVER_ensures(vg_in_pos == vg_in_size || vg_in_err || vg_in_rderr)
 ;
